@@ -255,3 +255,71 @@ PARSE_GEOMETRY = REG.add(Contract(
     deep_wf=True, props=("C18",),
     note="instance for all three geometry directives (the decorators only register the section names)"))
 CONTRACTS.append(PARSE_GEOMETRY)
+
+
+# ---- conformance test hooks for FINALIZE (vlib/selftest.py) --------------------------------------------------------------------------
+def _sel_data(mol, opt, x):
+    a = mol["nodes"][x]
+    return a["resname"] == opt["resname"] and opt["start"] <= a["resid"] < opt["stop"]
+
+
+def _witness_finalize(rnd):
+    names, resn = [21, 22], [31, 32]
+    nmol = rnd.randint(1, 4)
+    mols = []
+    for m in range(nmol):
+        keys = rnd.sample(range(6), rnd.randint(1, 4))
+        mols.append({"nodes": {k: {"resid": rnd.randint(1, 4), "resname": rnd.choice(resn), "restraints": rnd.choice([None, None, [901]]), "rw_options": None} for k in keys},
+                     "mol_name": rnd.choice(names), "templates": 0})
+
+    def option():
+        lo = rnd.randint(0, 4)
+        return {"resname": rnd.choice(resn), "start": lo, "stop": lo + rnd.randint(0, 3), "parameters": rnd.randint(100, 120)}
+    bo, ro = {}, {}
+    for _ in range(rnd.randint(0, 4)):
+        key = (rnd.choice(names), rnd.randrange(nmol + 1))
+        bo.setdefault(key, []).extend(option() for _ in range(rnd.randint(1, 3)))
+    for _ in range(rnd.randint(0, 2)):
+        ro[(rnd.choice(names), rnd.randrange(nmol + 1))] = option()
+    self_ = {"molecules": mols, "build_options": bo, "rw_options": ro, "templates": 7, "topology": {"volumes": {31: 1.5}}, "resnames_to_hash": {31: [41, 42], 32: [43]}}
+
+    def cnt(m, x, j):
+        m, j = int(m), int(j)
+        if not (0 <= m < nmol) or x not in mols[m]["nodes"]:
+            return 0
+        opts = bo.get((mols[m]["mol_name"], m), [])
+        return sum(1 for i in range(min(j, len(opts))) if _sel_data(mols[m], opts[i], x))
+    return {"self": self_, "lineno": 0}, {"options_selecting_before": cnt, "__window__": 8, "__names__": names + resn + [41, 42, 43]}
+
+
+def _adapt_finalize(a):
+    import networkx as nx
+    from collections import defaultdict
+    from types import SimpleNamespace
+    from polyply.src.build_file_parser import BuildDirector
+    d = a["self"]
+    mols = []
+    for md in d["molecules"]:
+        g = nx.Graph()
+        for k, at in md["nodes"].items():
+            g.add_node(k, **{f: (list(v) if isinstance(v, list) else v) for f, v in at.items() if v is not None})
+        g.mol_name, g.templates = md["mol_name"], md["templates"]
+        mols.append(g)
+    top = SimpleNamespace(volumes=dict(d["topology"]["volumes"]))
+    bd = BuildDirector(mols, top)
+    bd.build_options = defaultdict(list, {k: [dict(o) for o in v] for k, v in d["build_options"].items()})
+    bd.rw_options = {k: dict(o) for k, o in d["rw_options"].items()}
+    bd.templates = d["templates"]
+    bd.resnames_to_hash = {k: list(v) for k, v in d["resnames_to_hash"].items()}
+    return {"self": bd, "lineno": a["lineno"]}
+
+
+def _unadapt_finalize(ra, res):
+    bd = ra["self"]
+    mols = [{"nodes": {k: {f: at.get(f) for f in ("resid", "resname", "restraints", "rw_options")} for k, at in g.nodes(data=True)},
+             "mol_name": g.mol_name, "templates": g.templates} for g in bd.molecules]
+    return {"self": {"molecules": mols, "build_options": dict(bd.build_options), "rw_options": dict(bd.rw_options), "templates": bd.templates,
+                     "topology": {"volumes": dict(bd.topology.volumes)}, "resnames_to_hash": dict(bd.resnames_to_hash)}}
+
+
+FINALIZE.witness, FINALIZE.adapt, FINALIZE.unadapt = _witness_finalize, _adapt_finalize, _unadapt_finalize
